@@ -446,8 +446,8 @@ def gen_iter(rng, mode):
                 g.commit(tx)
             else:
                 g.abort(tx)
-                if created is not None:
-                    g.iterclose(created)
+                if created is not None and rng.random() < 0.4:
+                    g.iterclose(created)      # closing the iterator of an aborted transaction is optional
             g.chans()
         elif r < 0.8 and open_iters:
             g.next(rng.choice(open_iters))
@@ -473,11 +473,12 @@ def gen_iter(rng, mode):
                 g.next(i, src=g.snap_src(s), take=-1)
             else:
                 g.iterclose(i)
-        elif d["st"] == "dead":
-            g.iterclose(i)
     g.chans()
     g.sleep(2500)
     g.grave(t, quiet=True)
+    for i, d in g.iters.items():
+        if d["st"] == "dead":
+            g.iterclose(i)
     for i, d in g.iters.items():
         if d["st"] == "open":
             g.iterclose(i)
